@@ -53,7 +53,7 @@ func (s Schema) usable(name string) bool {
 // sets are disjoint except for the key names k and j.
 var BaseSchemas = map[string]Schema{
 	"T": {{Ident{Name: "id"}, TInt, false}, {Ident{Name: "k"}, TInt, false}, {Ident{Name: "j"}, TInt, false}, {Ident{Name: "ia"}, TInt, false},
-		{Ident{Name: "sa"}, TStr, false}, {Ident{Name: "ba"}, TBool, false}, {Ident{Name: "ma"}, TArr, false}},
+		{Ident{Name: "sa"}, TStr, false}, {Ident{Name: "ba"}, TBool, false}, {Ident{Name: "ma"}, TArr, false}, {Ident{Name: "K"}, TInt, false}, {Ident{Name: "Sa"}, TStr, false}},
 	"U": {{Ident{Name: "uid"}, TInt, false}, {Ident{Name: "k"}, TInt, false}, {Ident{Name: "j"}, TInt, false}, {Ident{Name: "ub"}, TInt, false},
 		{Ident{Name: "us"}, TStr, false}},
 	"V": {{Ident{Name: "vid"}, TInt, false}, {Ident{Name: "k"}, TInt, false}, {Ident{Name: "vs"}, TStr, false}},
@@ -142,7 +142,7 @@ func (g *PipeGen) sortTerms(s Schema, forceTotal bool) []SortTerm {
 	return ts
 }
 
-var takeCounts = []string{"0", "1", "2", "3", "5", "100", "007", "0x2"}
+var takeCounts = []string{"0", "1", "2", "3", "5", "100", "007", "0x2", "1", "2", "3", "4294967296", "9223372036854775807", "18446744073709551615", "18446744073709551616", "99999999999999999999999"}
 
 // Op generates one operator of the given kind over schema s and returns the
 // resulting schema.
@@ -484,7 +484,11 @@ func (g *PipeGen) join(s Schema, joinDepth int) (*Op, Schema) {
 		rkinds = append(rkinds, k)
 	}
 	if joinDepth > 0 && g.Rng.Intn(3) == 0 {
-		rkinds = append(rkinds, "join")
+		if g.Rng.Intn(2) == 0 {
+			rkinds = append([]string{"join"}, rkinds...) // the right-hand side starts with a join of its own
+		} else {
+			rkinds = append(rkinds, "join")
+		}
 	}
 	var rp *Pipe
 	var rs Schema
@@ -627,7 +631,7 @@ func DB(rng *rand.Rand) map[string]*RTable {
 				switch {
 				case ci == 0:
 					row = append(row, val.I(int64(i+1)))
-				case c.Name.Name == "k" || c.Name.Name == "j":
+				case c.Name.Name == "k" || c.Name.Name == "j" || c.Name.Name == "K":
 					if rng.Intn(6) == 0 {
 						row = append(row, val.NULL)
 					} else {
